@@ -1,7 +1,55 @@
 import Driver.Wire
-/-! Driver commands of the Transform area (filled in by the area's owner). -/
-namespace Marwood.Driver.Transform
+import Marwood.Transform.Model
+import Marwood.Spec.Match
+/-!
+Driver commands of the Transform area (C17).
 
-def handle (_cmd : String) (_args : List String) : Option String := none
+* `tr-def <datum>`                 model `Transform.tryNew`            → `ok` | `err <class>` | `panic` | `hang`
+* `tr-use <def datum> <use datum>` model `tryNew` then `transform`     → `def-err` | `ok <datum>` | `err <class>` | `panic` | `hang`
+* `spec-tr-use <def> <use>`        R7RS spec (`Spec.Match`)            → `ok <datum>` | `nomatch` | `mismatch` | `malformed` | `malformed-def`
+The two datums travel in one token list (prefix code, so the boundary is unambiguous).
+-/
+namespace Marwood.Driver.Transform
+open Marwood Marwood.Wire Marwood.Transform
+
+def errName : TErr → String
+  | .syntax => "syntax"
+  | .pair => "pair"
+
+def showRes {α} (f : α → String) : Res α → String
+  | .ok a => f a
+  | .err e => "err " ++ errName e
+  | .panic _ => "panic"
+  | .fuel => "hang"
+
+def dec2 (args : List String) : Option (Datum × Datum) := do
+  let (d, rest) ← decDatum args
+  let (u, rest) ← decDatum rest
+  if rest.isEmpty then pure (d, u) else none
+
+def handle (cmd : String) (args : List String) : Option String :=
+  match cmd with
+  | "tr-def" => do
+    let (d, rest) ← decDatum args
+    if !rest.isEmpty then none
+    else pure (showRes (fun _ => "ok") (Transform.tryNew (defFuel d) d))
+  | "tr-use" => do
+    let (d, u) ← dec2 args
+    match Transform.tryNew (defFuel d) d with
+    | .ok t => pure (showRes (fun e => "ok " ++ encDatum e) (t.transform (useFuel d u) u))
+    | .err _ => pure "def-err"
+    | .panic _ => pure "def-panic"
+    | .fuel => pure "def-hang"
+  | "spec-tr-use" => do
+    let (d, u) ← dec2 args
+    match Spec.Match.parseDef d with
+    | none => pure "malformed-def"
+    | some rs =>
+      pure (match Spec.Match.specExpand rs.ctx rs.rules u with
+        | .ok e => "ok " ++ encDatum e
+        | .noMatch => "nomatch"
+        | .mismatch => "mismatch"
+        | .malformed => "malformed")
+  | _ => none
 
 end Marwood.Driver.Transform
